@@ -231,6 +231,28 @@ Theorem C17_complex_dependent_reported :
 Proof. exact complex_dependent_reported. Qed.
 Print Assumptions C17_complex_dependent_reported.
 
+(* what the pairing relies on at declaration time: Kernel.elementary (UncertainReal._elementary)
+   seeds the vector of the new number with its own leaf and standard uncertainty, zero included
+   (a component of ucomplex(z,(u,0))); the correspondence checks [decl_ok] on every declared
+   number of every generated session *)
+Theorem C17_declared_number_shape :
+  forall (s : KTypes.state R) x u df lb indep s' (o : KTypes.ureal R),
+    Kernel.assoc (s_leaves s) (s_ctx s, (s_ne s + 1)%Z) = None ->
+    elementary RNum s x u df lb indep = Ok (s', o) -> decl_ok RNum s' o = true.
+Proof. exact elementary_decl_ok. Qed.
+Print Assumptions C17_declared_number_shape.
+
+Example C17_declared_zero_uncertainty_nonvacuous :
+  exists s' o, elementary RNum (init RNum 7) 2 0 DInf None true = Ok (s', o) /\
+               uc o = [((7%Z, 1%Z), 0)] /\ decl_ok RNum s' o = true.
+Proof.
+  assert (E : exists s' o, elementary RNum (init RNum 7) 2 0 DInf None true = Ok (s', o) /\ uc o = [((7%Z, 1%Z), 0)]).
+  { unfold elementary. cbn [ltb RNum]. unfold Rltb, Kernel.zero. cbn [of_Z RNum].
+    destruct (Rlt_dec 0 0) as [H|_]; [exfalso; lra|]. do 2 eexists. split; reflexivity. }
+  destruct E as (s' & o & E & Hu). exists s', o. split; [exact E|]. split; [exact Hu|].
+  eapply elementary_decl_ok; [|exact E]. reflexivity.
+Qed.
+
 (* ---------- non-vacuity ---------- *)
 (* the hypotheses of (1), (2) are met by y = z.real + z.imag in the session {z, x}; the budget
    call succeeds and has two rows *)
